@@ -256,7 +256,9 @@ fn run_agent_inner(c: &AgentCase, feat: &mut AgentFeatures) -> Result<(), Failur
     let a = if c.market { c.asset as usize % 2 } else { 0 };
     let tick = c.tick;
     let mut env = if c.market { EnvObj::M(MarketEnv::<2, 10>::new(0, [tick, tick], 1_000_000, true)) } else { EnvObj::S(Env::new(0, tick, 1_000_000, true)) };
-    let mid = c.mid_k.max(20) * tick;
+    // an asks-only starting book may sit at the very bottom of the price range (best ask on the lowest ticks: the
+    // observed mid-price is then below one tick)
+    let mid = if c.start_book == 2 && c.mid_k < 20 { c.mid_k * tick } else { c.mid_k.max(20) * tick };
     let mut hrng = Xoroshiro128StarStar::seed_from_u64(7);
     // starting book placed by the harness
     {
@@ -283,7 +285,7 @@ fn run_agent_inner(c: &AgentCase, feat: &mut AgentFeatures) -> Result<(), Failur
     for step in 0..c.steps as usize {
         // occasional harness quote (moves the touch under the agent)
         if let Some(mv) = c.quote_moves.get(step) {
-            if *mv != 0 {
+            if *mv != 0 && !(c.start_book == 2 && c.mid_k < 20) {
                 let k = (c.mid_k.max(20) as i64 + *mv as i64).max(1) as u32;
                 let _ = env.dynenv_mut().place_order(a, *mv > 0, 40, HARNESS_TRADER, Some(k * tick));
             }
@@ -610,9 +612,12 @@ fn spec_strategy(kind: u8) -> BoxedStrategy<AgentSpec> {
 }
 
 pub fn agent_case_strategy(kind: u8, max_steps: u16) -> BoxedStrategy<AgentCase> {
-    (spec_strategy(kind), any::<bool>(), 0u8..2, 1u32..=10, prop_oneof![1 => Just(0u8), 1 => Just(1u8), 1 => Just(2u8), 4 => Just(3u8)], prop_oneof![4 => 20u32..5000, 1 => 20u32..400_000_000], 1u16..=max_steps, rng_spec(), prop_oneof![3 => 0u32..1000, 1 => any::<u32>().prop_map(|x| x >> 1)], proptest::collection::vec(prop_oneof![3 => Just(0i8), 1 => -6i8..=6], 0..40))
+    (spec_strategy(kind), any::<bool>(), 0u8..2, 1u32..=10, prop_oneof![1 => Just(0u8), 1 => Just(1u8), 1 => Just(2u8), 4 => Just(3u8)], prop_oneof![8 => 20u32..5000, 2 => 20u32..400_000_000, 1 => 0u32..20], 1u16..=max_steps, rng_spec(), prop_oneof![3 => 0u32..1000, 1 => any::<u32>().prop_map(|x| x >> 1)], proptest::collection::vec(prop_oneof![3 => Just(0i8), 1 => -6i8..=6], 0..40))
         .prop_map(|(spec, market, asset, tick, start_book, mid_k, steps, rng, id_start, quote_moves)| {
-            let mid_k = mid_k.min((u32::MAX / tick).saturating_sub(1000)).max(20);
+            let low = mid_k < 20;
+            let mid_k = if low { mid_k } else { mid_k.min((u32::MAX / tick).saturating_sub(1000)).max(20) };
+            // the bottom-of-the-range books are asks-only
+            let start_book = if low { 2 } else { start_book };
             // large populations run fewer rounds (the audit reads every order record around every update): the
             // total number of trader-rounds stays below ~5 000 so that a case takes milliseconds, far from the
             // per-case CPU limit that stands for non-termination
